@@ -79,7 +79,12 @@ func c01TLS(run *evid.Run, prop string) (evals int) {
 	for e := range t.nodes {
 		for _, a := range c01Addressings()[:8] {
 			evals++
-			res := e4.Do(t.nodes[e].ProxyAddr(), e4.Addressing{Mode: a.Mode, Endpoint: a.Endpoint, Other: a.Other, TLS: t.client})
+			ad := e4.Addressing{Mode: a.Mode, Endpoint: a.Endpoint, Other: a.Other, TLS: t.client}
+			res := e4.Do(t.nodes[e].ProxyAddr(), ad)
+			for r := 0; r < 3 && !(res.Status == 200 || res.Status == 101) && !e4.AllActive(t.nodes); r++ {
+				e4.WaitAllActive(t.nodes, 30*time.Second) // membership flapped under load: decide afresh
+				res = e4.Do(t.nodes[e].ProxyAddr(), ad)
+			}
 			desc := fmt.Sprintf("TLS cluster (certificate + root CAs, no server-name override), entry %d, %+v -> %s", e, a, res)
 			ok := res.Status == 200 || res.Status == 101
 			switch {
